@@ -54,6 +54,7 @@ def load (g : GOracle) (j : Json) : Json := Id.run do
     return J.obj [("id", id), ("agree", false), ("spec", false), ("note", s!"loader process ended: {J.str (J.get j "death")}")]
   let fns := (J.arr (J.get j "fns")).toList.map J.hx
   let oracle : Bytes → Option Bytes := fun q => (g.get? (J.toHex q)).map J.hexBytes
+  let nocheck := (J.arr (J.get j "nocheck")).toList.map J.hx
   let mut all : Link.Scripts := []
   let mut notes : List String := []
   let mut specOk := true
@@ -82,7 +83,10 @@ def load (g : GOracle) (j : Json) : Json := Id.run do
               notes := notes ++ [s!"v2 check: model accepts {bstr name} but the v2 check pass rejects: {J.str (J.get (J.get sj "check2_err") "msg")}"]
               specOk := false
           | _ => notes := notes ++ ["v2 check: model fuel"]
-        match checkScript 10000 oracle fns name stmts with
+        -- (a name dropped from the checker table has no checker: "not found check for func")
+        let fcheck : CallInfo → Option (CM Unit) := fun c =>
+          if nocheck.contains c.name then none else some (builtinCheck oracle name c)
+        match checkNodes name (fun n => fns.contains n) fcheck 10000 stmts {} with
         | .need q => return J.obj [("id", id), ("agree", true), ("spec", true), ("need", J.toHex q), ("note", "")]
         | .fuel => return J.obj [("id", id), ("agree", false), ("spec", true), ("note", "check fuel")]
         | .err e =>
